@@ -1,5 +1,8 @@
 use vstd::prelude::*;
 use std::collections::HashMap;
+use vstd::std_specs::iter::IteratorSpec;
+use std::collections::HashSet;
+use std::collections::BTreeMap;
 //@ items
 pub trait ServerContext {}
 pub struct Opaque<T> { pub _p: core::marker::PhantomData<T> }
@@ -17,13 +20,77 @@ impl<C: ServerContext> HttpRouter<C> {
     pub fn insert(&mut self, e: ApiEndpoint<C>)
         ensures final(self).routes@ == old(self).routes@.push(e) { unimplemented!() }
 }
-pub uninterp spec fn path_parameters_ok<C: ServerContext>(e: ApiEndpoint<C>) -> bool;
-pub uninterp spec fn named_parameters_ok<C: ServerContext>(e: ApiEndpoint<C>) -> bool;
 impl<Context: ServerContext> ApiDescription<Context> {
-    #[verifier::external_body]
-    pub fn validate_path_parameters(&self, e: &ApiEndpoint<Context>) -> (r: Result<(), String>)
-        ensures (r is Ok) == path_parameters_ok(*e) { unimplemented!() }
-    #[verifier::external_body]
-    pub fn validate_named_parameters(&self, e: &ApiEndpoint<Context>) -> (r: Result<(), String>)
-        ensures (r is Ok) == named_parameters_ok(*e) { unimplemented!() }
 }
+
+// ---- TRUSTED: path templates (as in unit V14) ----
+pub uninterp spec fn template_of(path: Seq<char>) -> Seq<Seq<char>>;
+pub open spec fn texts(s: Seq<&str>) -> Seq<Seq<char>> { Seq::new(s.len(), |i: int| s[i]@) }
+#[verifier::external_body]
+pub fn route_path_to_segments(path: &str) -> (r: Vec<&str>)
+    ensures r@.len() == template_of(path@).len(),
+        forall|i: int| #![trigger r@[i]] #![trigger template_of(path@)[i]] 0 <= i < r@.len() ==> r@[i]@ == template_of(path@)[i],
+{ unimplemented!() }
+pub uninterp spec fn seg_of(s: Seq<char>) -> PathSegment;
+impl PathSegment {
+    #[verifier::external_body]
+    pub fn from(segment: &str) -> (r: PathSegment) ensures r == seg_of(segment@) { unimplemented!() }
+}
+// ---- TRUSTED: std's `slice.iter().filter_map(f).collect::<HashSet<_>>()` with its documented behaviour ----
+pub struct FilterMapped<'a, T, F> { pub items: Ghost<Seq<T>>, pub f: F, pub _l: core::marker::PhantomData<&'a T> }
+pub trait FilterMapOf<T> { fn filter_map_of<'a, U, F: Fn(&'a T) -> Option<U>>(&'a self, f: F) -> FilterMapped<'a, T, F>; }
+impl<T> FilterMapOf<T> for Vec<T> {
+    #[verifier::external_body]
+    fn filter_map_of<'a, U, F: Fn(&'a T) -> Option<U>>(&'a self, f: F) -> (r: FilterMapped<'a, T, F>)
+        ensures r.items@ == self@, r.f == f
+    { unimplemented!() }
+}
+impl<'a, T, F: Fn(&'a T) -> Option<String>> FilterMapped<'a, T, F> {
+    /// the set of all values the function returned `Some` of, over all items
+    #[verifier::external_body]
+    pub fn collect_set(self) -> (r: HashSet<String>)
+        requires forall|x: &'a T| call_requires(self.f, (x,)),
+        ensures
+            forall|y: String| #[trigger] r@.contains(y) ==> exists|i: int| 0 <= i < self.items@.len() && #[trigger] call_ensures(self.f, (&self.items@[i],), Some(y)),
+            forall|i: int| #![trigger self.items@[i]] 0 <= i < self.items@.len() ==> exists|o: Option<String>| #[trigger] call_ensures(self.f, (&self.items@[i],), o) && (o is Some ==> r@.contains(o->Some_0)),
+    { unimplemented!() }
+}
+/// `a != b` on HashSet<String> (W1)
+#[verifier::external_body]
+pub fn hashset_eq(a: &HashSet<String>, b: &HashSet<String>) -> (r: bool) ensures r == (a@ == b@) { unimplemented!() }
+/// W10: `a.difference(&b).collect::<Vec<_>>()` then sorted -- used only for the error text and for `is_empty()`
+pub struct NameList { pub empty: Ghost<bool> }
+#[verifier::external_body]
+pub fn names_only_in(a: &HashSet<String>, b: &HashSet<String>) -> (r: NameList)
+    ensures r.empty@ == (forall|y: String| a@.contains(y) ==> b@.contains(y)) { unimplemented!() }
+impl NameList {
+    #[verifier::external_body]
+    pub fn is_empty(&self) -> (r: bool) ensures r == self.empty@ { unimplemented!() }
+}
+
+impl<'a, T, V, F: Fn(&'a T) -> Option<(String, V)>> FilterMapped<'a, T, F> {
+    /// `.collect::<BTreeMap<_, _>>()`: every key of the map was produced (with the value the map holds for it) by
+    /// some item, and every item that produced a pair has its key in the map (for a repeated key the last wins)
+    #[verifier::external_body]
+    pub fn collect_btree(self) -> (r: BTreeMap<String, V>)
+        requires forall|x: &'a T| call_requires(self.f, (x,)),
+        ensures
+            forall|k: String| #[trigger] r@.contains_key(k) ==> exists|i: int| 0 <= i < self.items@.len() && #[trigger] call_ensures(self.f, (&self.items@[i],), Some((k, r@[k]))),
+            forall|i: int| #![trigger self.items@[i]] 0 <= i < self.items@.len() ==> exists|o: Option<(String, V)>| #[trigger] call_ensures(self.f, (&self.items@[i],), o) && (o is Some ==> r@.contains_key(o->Some_0.0)),
+    { unimplemented!() }
+}
+pub broadcast axiom fn ax_string_obeys_cmp()
+    ensures #[trigger] vstd::laws_cmp::obeys_cmp::<String>();
+// ---- TRUSTED: schema inspection (type_util.rs over schemars types): uninterpreted predicates ----
+#[verifier::external_body]
+pub struct Schema { _p: u8 }
+#[verifier::external_body]
+pub struct SchemaDeps { _p: u8 }
+pub uninterp spec fn scalar_schema(s: Schema, d: SchemaDeps) -> bool;
+pub uninterp spec fn string_enum_schema(s: Schema, d: SchemaDeps) -> bool;
+#[verifier::external_body]
+pub fn type_is_scalar(operation_id: &str, name: &str, schema: &Schema, dependencies: &SchemaDeps) -> (r: Result<(), String>)
+    ensures (r is Ok) == scalar_schema(*schema, *dependencies) { unimplemented!() }
+#[verifier::external_body]
+pub fn type_is_string_enum(operation_id: &str, name: &str, schema: &Schema, dependencies: &SchemaDeps) -> (r: Result<(), String>)
+    ensures (r is Ok) == string_enum_schema(*schema, *dependencies) { unimplemented!() }
